@@ -12,9 +12,9 @@
      reset                            → ok        (forget all frames)
      frame <id> <meta>                → ok        (frame id ↦ metadata)
      apply <audit|enforce> <ctx5> <ids>          → err <e> | ok <id:rank,…> <allowed> <denied> <cross> <missing>
-     search <mode> <ctx5> <failed|early|engine> <ids>   → err <e> | ok <id:rank,…> <total> ctx=<ids>
-     vec <mode> <ctx5> <failed|novec|conv> <ids>        → same
-     adaptive <mode> <ctx5> <failed|novec|conv> <ids> <k|~>  → err <e> | ok <id:rank,…>
+     search <mode> <ctx5> <disabled|failed|early|engine> <ids>   → err <e> | ok <id:rank,…> <total> ctx=<ids>
+     vec <mode> <ctx5> <disabled|failed|novec|conv> <ids>        → same
+     adaptive <mode> <ctx5> <disabled|failed|novec|conv> <ids> <k|~>  → err <e> | ok <id:rank,…>
      ask <mode> <ctx5> <contextOnly 0|1> <failed|ranked> <ids> → err <e> | ok <id:rank,…> <total> ctx=<ids> cit=<index:id,…> frag=<rank:id,…>
    In the entry-point requests the incoming hits are the given frame ids with rank = position+1
    and body = position; `B` is the identity (the context is shown as the ids it is built from). -/
@@ -166,7 +166,8 @@ def step (st : St) (ws : List String) : St × String :=
       let r0 : Response (List Hit) := { hits := hs, totalHits := hs.length, context := hs }
       let pre? : Option (PreSearch (List Hit)) :=
         if pre == "failed" then some .failed
-        else if pre == "early" then some (.early { hits := [], totalHits := 0, context := [] })
+        else if pre == "disabled" then some .disabled
+        else if pre == "early" then some .early
         else if pre == "engine" then some (.engine r0) else none
       (st, match pre? with
         | none => "bad-op"
@@ -178,6 +179,7 @@ def step (st : St) (ws : List String) : St × String :=
     | some mode, some c, some ids =>
       let pre? : Option PreVec :=
         if pre == "failed" then some .failed
+        else if pre == "disabled" then some .disabled
         else if pre == "novec" then some .noVecHits
         else if pre == "conv" then some (.converted (idsToHits ids)) else none
       (st, match pre? with
@@ -191,6 +193,7 @@ def step (st : St) (ws : List String) : St × String :=
     | some mode, some c, some ids =>
       let pre? : Option PreVec :=
         if pre == "failed" then some .failed
+        else if pre == "disabled" then some .disabled
         else if pre == "novec" then some .noVecHits
         else if pre == "conv" then some (.converted (idsToHits ids)) else none
       let k? : Option (Option Nat) := if k == "~" then some none else k.toNat?.map some
